@@ -50,6 +50,10 @@ def p5(aut, allowed, ast_module, slot_order=None):
             if rec["loc_ticks"] != rec["ticks"]:
                 why.append("tokens are consumed after loc is evaluated (end of span would not be the last token)")
         out.append({"id": oid + ":span", "holds": ok, "detail": "; ".join(why) or "span = (first token start, last token end)"})
+        # every node carries the source text it was parsed from (what makes its span resolvable and gives located errors their line / column)
+        if "source" in names:
+            out.append({"id": oid + ":source", "holds": rec.get("source_text") == "self._source",
+                        "detail": "%s(...) %s" % (rec["cls"], "does not pass source=" if rec.get("source_text") is None else "passes source=%s, not the parser's source" % rec.get("source_text"))})
         order = (slot_order or {}).get(rec["cls"])
         if order is not None:
             missing = [k for k in order if k not in rec["kwargs"]]
